@@ -2,7 +2,7 @@
    The theorems over the table regenerated from xreflect/cti_basic_method.go are in PropsGen.v
    (compiled on every run after the translator). *)
 From Coq Require Import ZArith List Bool.
-From Verif Require Import Common.GoInt Common.GoStr GoLite.Syntax GoLite.Sem C34.Model C34.Proof.
+From Verif Require Import Common.GoInt Common.GoStr GoLite.Syntax GoLite.Sem GoLite.Templates C34.Model C34.Proof.
 Import ListNotations.
 Open Scope Z_scope.
 
